@@ -531,6 +531,9 @@ def r_commit_rule(ctx):
             for x in U.walk_no_nested(f.node):
                 if isinstance(x, ast.AugAssign) and isinstance(x.target, ast.Name) and x.target.id == name:
                     return True
+                if isinstance(x, ast.Assign) and len(x.targets) == 1 and isinstance(x.targets[0], ast.Name) and x.targets[0].id == name and isinstance(x.value, ast.BinOp) \
+                        and any(isinstance(y, ast.Name) and y.id == name for y in (x.value.left, x.value.right)):
+                    return True         # x = x + 1
                 if isinstance(x, ast.For) and any(isinstance(t, ast.Name) and t.id == name for t in ast.walk(x.target)):
                     return True
             return False
@@ -560,6 +563,8 @@ def r_commit_rule(ctx):
             # must-facts: majority literal over len(voters), and entry term == currentTerm
             for fs in res.facts_at(dn.id):
                 ctx.tick()
+                if oracle.entails(fs, ('eq', dv, ex.tb.term(U.parse_expr('self.%s' % R.commitIndex)))):
+                    continue          # on this path the value is the old commit index (initialisation through a local copy)
                 lenkey = 'len(self.%s)' % R.voters
 
                 def mentions_len(t, fs=fs, depth=0):
@@ -634,6 +639,10 @@ def r_commit_rule(ctx):
                 continue
             elif isinstance(d.value, ast.Name) and only_grows(d.value.id, seen + (name,)):
                 continue
+            elif isinstance(d.value, ast.BinOp) and isinstance(d.value.op, ast.Add) and any(
+                    isinstance(a_, ast.Name) and a_.id == name and isinstance(b_, ast.Constant) and isinstance(b_.value, int) and b_.value >= 0
+                    for a_, b_ in ((d.value.left, d.value.right), (d.value.right, d.value.left))):
+                continue          # x = x + 1
             else:
                 return False
         return True
